@@ -425,12 +425,15 @@ package grpctunnel
 //@ func (*tunnelServerStream).halfClose
 //@   assigns st.halfClosed, rclosed(st.receiver)
 //@   ensures[C07] @recorded atomicLoad(st.halfClosed) != nil
+//@   ensures[C04,C07,C14] @readerreleased won(st.halfClosed) ==> rclosed(st.receiver)
 //@   at call close#1
 //@     assert[C01,C07,C13] @token won(st.halfClosed)
 //@   effects nosend, nowait
 //@   nopanic[C09]
 
 //@ func (*tunnelServerStream).finishStream
+//@   ensures[C04,C07,C14] @readerreleased won(st.halfClosed) ==> rclosed(st.receiver)
+//@   ensures[C07]         @recorded atomicLoad(st.halfClosed) != nil
 //@   locks st.svr.mu, st.writeMu
 //@   assigns st.halfClosed, cancel(st.cancel), rclosed(st.receiver)
 //@   at call removeStream#1
@@ -728,7 +731,7 @@ package grpctunnel
 //@   requires st != nil
 //@   at call cancel#1
 //@     assert[C04,C14] @afterdone isClosed(doneOf(st.ctx))
-//@   ensures[C04,C14] @onewait count("blocking") == 1 && count("call:cancel") == 1
+//@   ensures[C04,C07,C14] @onewait count("blocking") == 1 && count("call:cancel") == 1
 //@   assigns rcancelled(st.receiver)
 
 // ----- serve loop --------------------------------------------------------------
@@ -1342,6 +1345,7 @@ package grpctunnel
 //@     ghost ctxErr = result
 //@   at call cancelStream#1
 //@     assert[C04,C07,C14] @afterdone isClosed(doneOf(str.ctx))
+//@     assert[C07] @ctxclass arg1 == context.Canceled || arg1 == context.DeadlineExceeded
 //@     assert[C01,C04,C07] @ctxerr arg0 == str && arg1 == ctxErr
 //@   ensures[C04,C14] @onewait count("blocking") == 1 && count("call:cancelStream") == 1
 //@   locks str.ch.mu, str.metaMu
